@@ -211,12 +211,15 @@ pub fn gen_sched(rng: &mut Rng, lazy: bool) -> SchedGen {
     //  poll, under fail-fast, the first final failure late in the batch and more scenarios still queued; 9, lazy
     //  parsers only: the runner sits idle through more than a thousand consecutive polls in which the parser answers
     //  Pending, then the parser delivers its last feature and its end in one poll)
-    let focus = if lazy && rng.chance(1, 5) { 6 } else if lazy && rng.chance(1, 40) { 9 } else if rng.chance(1, 10) { 7 }
+    // (10: a retry delay of more than a SECOND during which nothing else runs — `execute` is parked in its idle sleep —
+    //  and a contained panic after the wake-up: the silent panic hook must still be installed then)
+    let focus = if rng.chance(1, 150) { 10 } else if lazy && rng.chance(1, 5) { 6 } else if lazy && rng.chance(1, 40) { 9 } else if rng.chance(1, 10) { 7 }
         else if rng.chance(1, 40) { 8 } else { rng.below(6) }; // 0,1 = none, 2 = delayed retries, 3 = serial + delayed retries, 4 = serial, 5 = retries everywhere
-    let p_serial = if focus == 3 || focus == 4 { 4 } else if focus == 6 || focus == 8 { 0 } else { *rng.pick(&[0usize, 1, 3]) };
+    let p_serial = if focus == 3 || focus == 4 { 4 } else if focus == 6 || focus == 8 || focus == 10 { 0 } else { *rng.pick(&[0usize, 1, 3]) };
     let delay_ms = if focus == 6 { *rng.pick(&[40u64, 60, 90]) } else if focus == 2 || focus == 3 { *rng.pick(&[2u64, 5, 9]) } else { *rng.pick(&[0u64, 0, 0, 3, 8]) };
     let with_delay = focus == 2 || focus == 3 || focus == 7 || rng.chance(1, 4);
     if focus == 8 { big_batch(&mut g, rng); }
+    if focus == 10 { long_delay(&mut g, rng); }
     if focus == 2 || focus == 3 || focus == 5 || focus == 7 {
         // every scenario has a retry budget and fails often
         for f in &mut g.feats {
@@ -337,6 +340,20 @@ pub fn gen_sched(rng: &mut Rng, lazy: bool) -> SchedGen {
     SchedGen { g, parser, end_pendings }
 }
 
+/// focus mode 10: one scenario, retried once after 1.1 s; its step panics in both attempts
+fn long_delay(g: &mut GenRun, rng: &mut Rng) {
+    let id = 2001usize;
+    g.scripts.clear();
+    g.info.clear();
+    g.info.insert(id, (vec![], vec![Kind::Run], Some(1)));
+    for att in 0..2 {
+        let mut sp = HashMap::new();
+        sp.insert((false, 0usize), if rng.chance(1, 2) { Pan::Str(4) } else { Pan::Lit(2) });
+        g.scripts.insert((format!("s-{id}"), att), AttScript { init: Init::Ok, before: None, after: None, step_panics: sp, gates: 0 });
+    }
+    g.feats = vec![RFeat { id: 2000, tags: vec![], bg: vec![], scens: vec![RScen { id, tags: vec!["retry(1).after(1100ms)".to_owned()], steps: vec![Kind::Run] }], rules: vec![] }];
+}
+
 /// focus mode 8: ONE feature of 72–90 one-step scenarios that complete without waiting for a gate; all pass but one
 /// late in the dispatch order (position > 64), which fails finally
 fn big_batch(g: &mut GenRun, rng: &mut Rng) {
@@ -428,8 +445,8 @@ fn sched_case(rng: &mut Rng, idx: usize, lazy: bool) -> Case {
 }
 
 fn sched_case_of(sg: SchedGen, rng: &mut Rng, req_name: &str) -> Case {
-    let (out, _mon10) = run_sched(&sg, rng);
-    let req = sched_request(&sg, &out.log).replacen("sched.run", req_name, 1);
+    let (out, mon10) = run_sched(&sg, rng);
+    let mut req = sched_request(&sg, &out.log).replacen("sched.run", req_name, 1);
     let nlabels = out.log.len();
     let has = |p: &str| out.log.iter().any(|l| l.starts_with(p));
     let class = format!(
@@ -441,7 +458,14 @@ fn sched_case_of(sg: SchedGen, rng: &mut Rng, req_name: &str) -> Case {
         if out.log.iter().any(|l| l.starts_with("GET2") && l.contains(":s")) { "serial " } else { "" },
         match nlabels { 0..=50 => "tiny", 51..=200 => "small", 201..=600 => "medium", _ => "large" },
     );
-    let imp = if let Some(m) = &out.panicked { format!("!runner-panicked {}", hex(m)) }
+    let mut imp = if let Some(m) = &out.panicked { format!("!runner-panicked {}", hex(m)) }
         else if out.ended && !out.stuck { CLEAN.to_owned() } else { format!("!run-did-not-end polls={}", out.polls) };
+    // C10 run level: nothing went through the process panic hook (counting hook, captured stderr) during the run,
+    // the hook is back afterwards, the stream ended with run-Finished
+    if out.panicked.is_none() && out.ended && !out.stuck {
+        req.push('\n');
+        req.push_str(&mon10);
+        imp.push_str("\nok");
+    }
     Case { req, imp, class, nontrivial: nlabels > 30 }
 }
